@@ -282,6 +282,13 @@ class _C08(_RulesBase):
                 if bad is None:
                     continue
                 breqs.append("rules decode %s %s bad" % (typ, hexs(bad)))
+        # a digit of another script, a no-break space, a byte that is no UTF-8: not in any of the formats
+        for typ in ALL_TYPES:
+            if typ in ("weekNumMode", "weekMonth", "duration"):
+                continue
+            for _ in range(n // 12):
+                text, _ = gen_value(rng, typ)
+                breqs.append("rules decode %s %s bad" % (typ, hexs(exotic(rng, text))))
         for u in ("nosuch", "Start", "dayTime ", "", "year2"):
             if u:
                 breqs.append("rules decode %s %s bad" % (u, hexs("1")))
@@ -292,6 +299,28 @@ class _C08(_RulesBase):
 register(_C08())
 
 
+# bytes no ASCII grammar produces (written as latin-1 characters = bytes): no-break space, next-line, em space,
+# digits of other scripts (Arabic-Indic, Persian, Devanagari, fullwidth — UTF-8), a byte that is no UTF-8 at all,
+# a lone continuation byte, NUL, tab, newline, vertical tab
+EXOTIC = ["\xc2\xa0", "\xc2\x85", "\xe2\x80\x83", "\xd9\xa3", "\xdb\xb1", "\xe0\xa5\xa7", "\xef\xbc\x91", "\xff", "\x80", "\x00", "\t", "\n", "\x0b", "_"]
+
+
+def other_script_digit(rng, d):
+    """UTF-8 bytes (as latin-1 characters) of the digit d in another script"""
+    cp = rng.choice([0x0660, 0x06F0, 0x0966, 0xFF10, 0x09E6, 0x0E50]) + int(d)
+    return chr(cp).encode("utf-8").decode("latin-1")
+
+
+def exotic(rng, text):
+    """a valid text with one digit written in another script, or with an exotic byte sequence put in"""
+    digs = [i for i, c in enumerate(text) if c in "0123456789"]
+    if digs and rng.random() < 0.6:
+        i = rng.choice(digs)
+        return text[:i] + other_script_digit(rng, text[i]) + text[i + 1:]
+    i = rng.choice([0, len(text), rng.randrange(len(text) + 1)])
+    return text[:i] + rng.choice(EXOTIC) + text[i:]
+
+
 def mutate(rng, text):
     k = rng.randrange(5)
     if not text:
@@ -300,7 +329,7 @@ def mutate(rng, text):
     if k == 0:
         return text[:i] + text[i + 1:]
     if k == 1:
-        return text[:i] + rng.choice(ALPHA12 + ["{", "}", '"', ",", "a", "\\", "n"]) + text[i:]
+        return text[:i] + rng.choice(ALPHA12 + ["{", "}", '"', ",", "a", "\\", "n"] + (EXOTIC if rng.random() < 0.15 else [])) + text[i:]
     if k == 2:
         return text[:i] + text[i] + text[i:]
     if k == 3:
@@ -376,6 +405,17 @@ class _C09(_RulesBase):
                                ("weekMonth", ['{"weekIndex": %s, "weekDay": 1, "month": 1}', '{"month": %s}'])):
                 for f in forms:
                     ereqs.append("rules decode %s %s" % (typ, hexs(f % sv)))
+        # LONG texts: one byte class repeated 101 / 300 / 5000 times (longer than any internal buffer or clip
+        # limit), alone and behind / in front of a valid value, for every type
+        for typ in ALL_TYPES:
+            val, _ = gen_value(rng, typ)
+            for unit in ("\x80", "\xbf", "\xc3", "\xff", "\xc2\xa0", " ", "-", "/", ":", "0", "a", "(", ")", "]"):
+                for n in (101, 300, 5000):
+                    if unit == "0" and typ in RANGE_TYPES:
+                        continue
+                    run = unit * n
+                    for text in (run, val + run, run + val, val[:1] + run + val[1:]):
+                        ereqs.append("rules decode %s %s" % (typ, hexs(text)))
         sts.append(Stream("rules-extremes", ereqs, compare=compare_lines))
         return sts
 
